@@ -97,6 +97,7 @@ type interpreter struct {
 	mutable            []*ssa.Global          // gosx: globals that get a private copy per path
 	overlay            map[*ssa.Global]*value // gosx: this path's copies of the mutable globals
 	syncMaps           map[*value]*syncMapState
+	syncStates         map[*value]*syncState
 }
 
 type deferred struct {
@@ -460,6 +461,8 @@ func call(i *interpreter, caller *frame, callpos token.Pos, fn value, args []val
 		return callSSA(i, caller, callpos, fn.Fn, args, fn.Env)
 	case *ssa.Builtin:
 		return callBuiltin(caller, callpos, fn, args)
+	case hostFunc:
+		return fn(caller, args)
 	}
 	panic(fmt.Sprintf("cannot call %T", fn))
 }
@@ -586,6 +589,9 @@ func runFrame(fr *frame) {
 			panic(pathAbort{})
 		}
 		if re, ok := r.(runtime.Error); ok {
+			if _, isRt := re.(rtErr); !isRt && os.Getenv("GOSX_DEBUG_STACK") != "" {
+				fmt.Fprintf(os.Stderr, "host runtime error %v in %s\n%s\n", re, fr.fn, debug.Stack())
+			}
 			if _, isRt := re.(rtErr); !isRt && !isTargetRuntimeError(re) {
 				// a host run-time error outside the modelled operations is an engine bug
 				panic(engineError{"engine runtime error: " + re.Error() + " in " + fr.fn.String() + "\n" + string(debug.Stack())})
@@ -723,6 +729,10 @@ func (fr *frame) bypassExternal(args []value) bool {
 	case "strconv.Atoi", "strconv.ParseInt", "strconv.ParseUint":
 		_, ok := args[0].(sstr)
 		return ok
+	case "strings.Count", "strings.Replace", "strings.EqualFold", "strings.ToLower", "bytes.Equal", "bytes.IndexByte",
+		"sort.Ints", "sort.Float64s":
+		// host implementations inherited from x/tools: concrete arguments only
+		return anySym(args...)
 	}
 	return false
 }
